@@ -39,6 +39,9 @@ struct Cfg {
     rwnd: (u32, u32),
     cap: usize,
     variant: u8,
+    /// both endpoints are client-role WebSockets: the source of an endpoint that has taken the peer's Close only ends
+    /// when the peer tears the transport down (drops its endpoint)
+    linger: bool,
 }
 
 fn build(cfg: &Cfg) -> World {
@@ -47,6 +50,9 @@ fn build(cfg: &Cfg) -> World {
     let a = SideCfg { opts: opts(cfg.rwnd.0, 1).bind_buffer_size(1).datagram_buffer_size(2).max_flow_id_retries(if cfg.variant == 2 { 1 } else { 3 }), rng: vec![] };
     let b = SideCfg { opts: opts(cfg.rwnd.1, 1).bind_buffer_size(1).datagram_buffer_size(2), rng: vec![] };
     let mut w = World::two(if cfg.cap == 0 { UNBOUNDED_CAP } else { cfg.cap }, &a, &b);
+    if cfg.linger {
+        w.sim.link.lock().linger_after_close = [true, true];
+    }
     // B: accepts forever; stream 1 is read slowly so that A's writer runs out of credit
     let mut plans_b = BTreeMap::new();
     plans_b.insert(1u8, EndPlan::SeqKeep(vec![Op::ReadToEof(1), Op::W(2), Op::Shutdown, Op::W(1)]));
@@ -499,22 +505,24 @@ pub fn run(args: &Args) -> Report {
     let mut cases = Vec::new();
     let cfgs: Vec<Cfg> = if thorough {
         vec![
-            Cfg { rwnd: (2, 2), cap: 0, variant: 0 },
-            Cfg { rwnd: (2, 2), cap: 0, variant: 1 },
-            Cfg { rwnd: (1, 3), cap: 0, variant: 1 },
-            Cfg { rwnd: (2, 1), cap: 1, variant: 0 },
-            Cfg { rwnd: (3, 2), cap: 2, variant: 1 },
-            Cfg { rwnd: (2, 2), cap: 0, variant: 2 },
-            Cfg { rwnd: (1, 1), cap: 1, variant: 2 },
+            Cfg { rwnd: (2, 2), cap: 0, variant: 0, linger: false },
+            Cfg { rwnd: (2, 2), cap: 0, variant: 1, linger: false },
+            Cfg { rwnd: (1, 3), cap: 0, variant: 1, linger: false },
+            Cfg { rwnd: (2, 1), cap: 1, variant: 0, linger: false },
+            Cfg { rwnd: (3, 2), cap: 2, variant: 1, linger: false },
+            Cfg { rwnd: (2, 2), cap: 0, variant: 2, linger: false },
+            Cfg { rwnd: (1, 1), cap: 1, variant: 2, linger: false },
+            Cfg { rwnd: (2, 2), cap: 0, variant: 2, linger: true },
+            Cfg { rwnd: (2, 1), cap: 1, variant: 0, linger: true },
         ]
     } else {
-        vec![Cfg { rwnd: (2, 2), cap: 0, variant: 2 }, Cfg { rwnd: (2, 1), cap: 1, variant: 0 }]
+        vec![Cfg { rwnd: (2, 2), cap: 0, variant: 2, linger: false }, Cfg { rwnd: (2, 1), cap: 1, variant: 0, linger: false }, Cfg { rwnd: (2, 2), cap: 0, variant: 2, linger: true }]
     };
     for cfg in cfgs {
         // quick tier: the lean scenario gets every fault at every point of every <= 1-deviation schedule, the busy one
         // every fault at every point of the canonical schedule; the thorough tier explores all of them deeper
         let max_k = if !thorough && cfg.variant != 2 { 0 } else { u32::MAX };
-        cases.push(Case { try_unbounded: false, max_k, label: format!("{} scenario rwnd={:?} cap={} variant={}", if cfg.variant == 2 { "lean" } else { "busy" }, cfg.rwnd, cfg.cap, cfg.variant), exec: Box::new(move |r| exec(&cfg, r)) });
+        cases.push(Case { try_unbounded: false, max_k, label: format!("{} scenario rwnd={:?} cap={} variant={}{}", if cfg.variant == 2 { "lean" } else { "busy" }, cfg.rwnd, cfg.cap, cfg.variant, if cfg.linger { " client-role WebSockets (source outlives the peer's Close)" } else { "" }), exec: Box::new(move |r| exec(&cfg, r)) });
     }
     for n in if thorough { vec![0usize, 3, 127, 129, 140, 300] } else { vec![3usize, 140] } {
         for how in 0..4u8 {
